@@ -178,20 +178,17 @@ def ref_list_step(p, op):
     # appends, an Insertion inserts, MISSING deletes.
     if not op['pairs']:
       raise ValueError('There are no values to rebind.')
+    if any(k < 0 for k, _ in op['pairs']):
+      raise NotImplementedError('negative rebind keys are outside the documented API')
     for k, vj in sorted(op['pairs'], key=lambda kv: kv[0], reverse=True):
       v = d(vj)
-      if k < 0:
-        raise NotImplementedError('negative rebind keys are outside the documented API')
       if isinstance(v, RefInsertion):
-        if not isinstance(v.value, _Missing) or k < len(p):
-          p.insert(k, v.value)
+        p.insert(k, v.value)       # (list.insert appends when k >= len)
       elif k >= len(p):
-        if not isinstance(v, _Missing):
+        if not isinstance(v, _Missing):      # appending MISSING does nothing
           p.append(v)
-      elif isinstance(v, _Missing):
-        p[k] = M       # deleted by the purge below (all deletions of one rebind take effect together)
       else:
-        p[k] = v
+        p[k] = v       # MISSING: deleted by the purge below (all deletions of one rebind take effect together)
   else:
     raise AssertionError(o)
   _purge(p)
@@ -457,6 +454,15 @@ def simple_key(k):
   return bool(k) and not any(c in k for c in '.[]') and not k.lstrip('-').isdigit()
 
 
+def incomparable(a, b):
+  try:
+    sorted([a, b])
+    sorted([b, a])
+  except TypeError:
+    return True
+  return False
+
+
 class Gen:
   def __init__(self, rng):
     self.r = rng
@@ -534,8 +540,10 @@ class Gen:
     elif o in ('remove', 'contains', 'index', 'count'):
       op.update(v=self.present(p))
     elif o == 'sort':
-      if not self.sortable(p) and not (n == 2 and r.chance(0.5)):
-        return self.list_op(p)
+      if not self.sortable(p):
+        # a sort that fails leaves longer lists in an unspecified order: only on incomparable pairs
+        if n != 2 or r.chance(0.5) or not incomparable(p[0], p[1]):
+          return self.list_op(p)
       op.update(rev=r.chance(0.4))
     elif o in ('imul', 'mul'):
       op.update(n=r.choice([-1, 0, 1, 2, 2, 3]))
@@ -544,7 +552,7 @@ class Gen:
       pairs = []
       for k in ks:
         v = self.val(allow_missing=True)
-        if r.chance(0.3):
+        if r.chance(0.3) and v != MISSING_J:      # Insertion(MISSING) is meaningless
           v = {'ins': v}
         pairs.append([k, v])
       op.update(pairs=pairs)
